@@ -370,3 +370,147 @@ Fixpoint vis_from (k : nat) (ts : list target) : list nat :=
   | (_, Some _) :: t => k :: vis_from (S k) t
   | (_, None) :: t => vis_from (S k) t
   end.
+
+(* ================= the implicit cast of Compiler._binaryop =================
+   while True: exact match on [left.dtype, right.dtype]; if none and exactly one operand has dtype object, wrap it
+   in the cast function named types.MAP[dtype of the other operand] (int is promoted to Decimal) and retry; the
+   wrapped operand is no longer object, so the loop runs at most twice. *)
+Definition is_obj (t : ty) : bool := ty_eqb t TObject.
+Definition cast_target (t : ty) : ty := match t with TInt => TDec | _ => t end.
+Definition cast_fname (t : ty) : option string := assoc (ty_name t) R.cast_names.      (* types.MAP.get(target) *)
+(* dtype of the cast node: the declared output of function_lookup(FUNCTIONS, name, [operand]) *)
+Definition cast_out (target src : ty) : option ty :=
+  match cast_fname target with
+  | Some n => out_ty (function_lookup R.functions n [src])
+  | None => None
+  end.
+
+(* (cast on the left operand, cast on the right operand, dtype of the operator node); a cast is named by its target *)
+Definition binop_c (op : binop) (a b : ty) : option (option ty * option ty * ty) :=
+  match binop_out op a b with
+  | Some t => Some (None, None, t)
+  | None =>
+      if is_obj a && negb (is_obj b) then
+        let tg := cast_target b in
+        match cast_out tg a with
+        | Some a' => match binop_out op a' b with Some t => Some (Some tg, None, t) | None => None end
+        | None => None
+        end
+      else if is_obj b && negb (is_obj a) then
+        let tg := cast_target a in
+        match cast_out tg b with
+        | Some b' => match binop_out op a b' with Some t => Some (None, Some tg, t) | None => None end
+        | None => None
+        end
+      else None
+  end.
+
+Section TypeOfC.
+Variable cols : list ty.
+Variable aggs : list ty.
+
+(* as type_of, binary operators with the implicit cast *)
+Fixpoint type_of_c (e : enode) : option ty :=
+  match e with
+  | EConst v => type_of_value v
+  | ECol i => nth_error cols i
+  | EAgg h => nth_error aggs h
+  | EUnary op a => match type_of_c a with Some t => unop_out op t | None => None end
+  | EBinary op a b =>
+      match type_of_c a, type_of_c b with
+      | Some ta, Some tb => match binop_c op ta tb with Some (_, _, t) => Some t | None => None end
+      | _, _ => None
+      end
+  | EBetween a lo hi =>
+      match type_of_c a, type_of_c lo, type_of_c hi with
+      | Some ta, Some tl, Some th => between_out ta tl th
+      | _, _, _ => None
+      end
+  | EAnd args | EOr args =>
+      match all_some (map type_of_c args) with Some _ => Some TBool | None => None end
+  | ECoalesce args =>
+      match all_some (map type_of_c args) with
+      | Some (t :: ts) => if forallb (ty_eqb t) ts then Some t else None
+      | _ => None
+      end
+  | EFunc f args =>
+      match all_some (map type_of_c args) with Some ts => func_out f ts | None => None end
+  | EIn negate a _ =>
+      match type_of_c a with Some _ => in_out negate | None => None end
+  end.
+
+Definition binop_casts (op : binop) (ta tb : option ty) : option ty * option ty :=
+  match ta, tb with
+  | Some a, Some b => match binop_c op a b with Some (ca, cb, _) => (ca, cb) | None => (None, None) end
+  | _, _ => (None, None)
+  end.
+
+(* evaluation of the COMPILED tree: Eval.eval with the cast nodes the compiler inserted.
+   [castf target v] = the cast function named types.MAP[target] applied to a non-NULL argument
+   (query_env int_/decimal_/date_/str_/bool_); the @function wrapper returns NULL on a NULL argument. *)
+Variable castf : ty -> value -> value.
+Variable r : row.
+Variable st : list value.
+
+Definition apply_cast (c : option ty) (v : value) : value :=
+  match c with None => v | Some t => if is_null v then VNull else castf t v end.
+
+Definition bin_c (op : binop) (ca cb : option ty) (x y : value) : value :=
+  let x' := apply_cast ca x in
+  if is_null x' then VNull
+  else let y' := apply_cast cb y in
+       if is_null y' then VNull else bin op x' y'.
+
+Fixpoint eval_c (e : enode) : value :=
+  match e with
+  | EConst v => v
+  | ECol i => cell i r
+  | EAgg h => nth h st VNull
+  | EUnary op a => un op (eval_c a)
+  | EBinary op a b =>
+      let '(ca, cb) := binop_casts op (type_of_c a) (type_of_c b) in
+      bin_c op ca cb (eval_c a) (eval_c b)
+  | EBetween a lo hi =>
+      let x := eval_c a in
+      if is_null x then VNull
+      else let l := eval_c lo in
+           if is_null l then VNull
+           else let h := eval_c hi in
+                if is_null h then VNull else VBool (val_le l x && val_le x h)
+  | EAnd args =>
+      (fix go (l : list enode) : value :=
+         match l with
+         | [] => VBool true
+         | a :: t => let v := eval_c a in
+                     if is_null v then VNull else if truthy v then go t else VBool false
+         end) args
+  | EOr args =>
+      (fix go (acc : value) (l : list enode) : value :=
+         match l with
+         | [] => acc
+         | a :: t => let v := eval_c a in
+                     if truthy v then VBool true else go (if is_null v then VNull else acc) t
+         end) (VBool false) args
+  | ECoalesce args =>
+      (fix go (l : list enode) : value :=
+         match l with
+         | [] => VNull
+         | a :: t => let v := eval_c a in if is_null v then go t else v
+         end) args
+  | EFunc f args =>
+      let vs := map eval_c args in
+      if existsb is_null vs then VNull else apply_func f vs
+  | EIn negate a items =>
+      let x := eval_c a in
+      if is_null x then VNull
+      else match items with
+           | None => VNull
+           | Some l => VBool (xorb negate (existsb (val_eq x) l))
+           end
+  end.
+End TypeOfC.
+
+(* the contract of the cast functions the theorem relies on (checked on the implementation by sweep 1 for every
+   cast overload x argument type, and modelled by C18 in Model/StrFuncs.v) *)
+Definition cast_contract (castf : ty -> value -> value) : Prop :=
+  forall tg v, (forall k, v <> VErr k) -> has_type (castf tg v) tg = true.
